@@ -5,7 +5,7 @@ cd "$(dirname "$(readlink -f "$0")")/.."
 V=$PWD
 export GOFLAGS=-mod=mod GOPROXY=off GOSUMDB=off GOTOOLCHAIN=local
 ids=$(python3 -c "import json;print(' '.join(c['property_id'] for c in json.load(open('MANIFEST.json'))['checks']))")
-seeds="$@"; [ -z "$seeds" ] && seeds=$(ls seeded | grep -v matrix)
+seeds="$@"; [ -z "$seeds" ] && seeds=$(cd seeded && ls -d */ | tr -d / | while read d; do [ -f "$d/patch.diff" ] && echo "$d"; done)
 one() {
   s=$1
   w=$(mktemp -d /tmp/sm.XXXXXX)
